@@ -174,6 +174,9 @@ def vivo_items(ctx, n, check, sims=('step', 'fast'), id0=1, hooks_bias=False):
             walk = dict(kind='lattice', n=n_min, seed=ctx.seed * 31 + i, step=r.choice([2, 3]), wick=r.choice([1, 3]),
                         gap_p=r.choice([0.1, 0.3]), flat_p=r.choice([0.05, 0.2]))
         it = dict(id=id0 + i, policy=pol, cfg=cfg, walk=walk, fast=fast, tf={1: '1m', 3: '3m', 5: '5m'}[tfm], check=check)
+        if i % 16 in (6, 7):    # orders cancelled while queued / half-filled ladders cancelled
+            it['strategy'] = 'cancel_race'
+            it['cfg'] = futures_config(lev=2, fee=0.0, balance=100000)
         if i % 8 in (4, 5):     # two routes on one exchange: matching must stay per symbol
             it['symbols'] = ['BTC-USDT', 'ETH-USDT']
             it['id'] = 100000 + i
